@@ -235,6 +235,14 @@ pub fn check_endpoint(v: &View, e: Side) -> WireOut {
                     }
                     Body::GoAway { last, code, .. } => {
                         peer_goaway_read = Some((*last, *code));
+                        // streams E initiated above the last-stream-id are over for both sides from here on: the
+                        // peer will not process them, E fails them without putting anything on the wire
+                        for (sid, st) in streams.iter_mut() {
+                            if st.opened_by_e && st.counted_open && *sid > *last && *sid % 2 == e_parity {
+                                st.counted_open = false;
+                                open_count -= 1;
+                            }
+                        }
                     }
                     _ => {}
                 }
